@@ -170,9 +170,12 @@ Definition b_macc (x : extop) (sub_ : bool) (t0 t1 : N) (rs rt : Z) : res cfg :=
         else mk_bin Add (EScalar (tmp t0 64)) (EScalar (tmp t1 64))) ;;
   hl <- hi_lo_of (tmp t0 64) ;;
   Ok (single addr ([OAssign (tmp t0 64) m; OAssign (tmp t1 64) sh; OAssign (tmp t1 64) acc; OAssign (tmp t0 64) r] ++ hl)).
+(* div, divu: guarded like movn -- a zero divisor skips the division ($hi/$lo unchanged: UNPREDICTABLE in the ISA) *)
 Definition b_div (q m : binop) (rs rt : Z) : res cfg :=
   eq <- mk_bin q (reg_expr rs) (reg_expr rt) ;; em <- mk_bin m (reg_expr rs) (reg_expr rt) ;;
-  Ok (single addr [OAssign (sc R_LO 32) eq; OAssign (sc R_HI 32) em]).
+  c <- mk_bin Cmpneq (reg_expr rt) (expr_const 0 32) ;; nc <- mk_bin Cmpeq (reg_expr rt) (expr_const 0 32) ;;
+  Ok (mkcfg [blk 0 addr [ONop None]; blk 1 addr [OAssign (sc R_LO 32) eq; OAssign (sc R_HI 32) em]; blk 2 addr []]
+            [edge_c 0 1 c; edge_c 0 2 nc; edge_u 1 2] 3 (Some 0) (Some 2)).
 Definition b_mfhilo (rd src : Z) : res cfg := Ok (single addr [OAssign (reg_scalar rd) (EScalar (sc src 32))]).
 Definition b_mthilo (dst rs : Z) : res cfg := Ok (single addr [OAssign (sc dst 32) (reg_expr rs)]).
 
